@@ -1,5 +1,7 @@
 (* ConcProofs.v — proofs about the interleaving semantics Conc.v (property C19). *)
 From SL Require Import Tac.
+From Coq Require Import Permutation.
+From RecordUpdate Require Import RecordUpdate.
 From SL Require Import Conc.
 Import ListNotations.
 
@@ -132,4 +134,53 @@ Proof.
        autorewrite with cntdb; cbn [map sidof snd e_sid]; autorewrite with cntdb.
   all: try lia.
   all: try (match goal with Hp : pop_min _ _ = Some _ |- _ => rewrite (pop_min_cnt _ _ _ _ Hp x) end; lia).
+  all: unfold sidof; cbn [snd]; lia.
+Qed.
+
+Definition all_sids (progs : list (list action)) : list nat := flat_map prog_sids progs.
+
+Lemma places_split : forall l1 th l2 h x,
+  cnt (places {| c_thr := l1 ++ th :: l2; c_sh := h |}) x =
+  cnt (flat_map thr_unput l1) x + cnt (flat_map thr_unput l2) x +
+  cnt (flat_map thr_held l1) x + cnt (flat_map thr_held l2) x +
+  cnt (thr_unput th ++ thr_held th ++ sh_places h) x.
+Proof.
+  intros. unfold places, unput, held, pending, sh_places. cbn [c_thr c_sh].
+  rewrite !flat_map_app. cbn [flat_map].
+  change (map (fun x0 : nat * entry => e_sid (snd x0)) (h_pend h)) with (map sidof (h_pend h)).
+  autorewrite with cntdb. lia.
+Qed.
+
+Lemma step_places : forall t st x, cnt (places (step t st)) x = cnt (places st) x.
+Proof.
+  intros t st x. destruct (step_cases t st) as [E|(l1 & th & l2 & th' & h' & Hl & Hn & Ht & E)].
+  - now rewrite E.
+  - rewrite E. destruct st as [thr h]. cbn [c_thr c_sh] in *. subst thr.
+    rewrite !places_split. rewrite (tstep_places _ _ _ _ _ Ht x). reflexivity.
+Qed.
+
+Lemma init_places : forall progs, places (init progs) = all_sids progs ++ [].
+Proof.
+  intros. unfold places, unput, held, pending, init, all_sids. cbn [c_thr c_sh h0 h_pend h_disp h_drop map app].
+  assert (H1 : forall l, flat_map thr_unput (map (fun p => mk p P0) l) = flat_map prog_sids l).
+  { induction l as [|p l IH]; cbn; [reflexivity|]. now rewrite IH. }
+  assert (H2 : forall l : list (list action), flat_map thr_held (map (fun p => mk p P0) l) = []).
+  { induction l as [|p l IH]; cbn; auto. }
+  rewrite H1, H2. reflexivity.
+Qed.
+
+(* every signal of the programs is, in every reachable state, in exactly as many places as it was submitted *)
+Theorem conservation : forall progs sch, Permutation (places (steps sch (init progs))) (all_sids progs).
+Proof.
+  intros. apply cnt_perm. intros x.
+  transitivity (cnt (places (init progs)) x).
+  - revert x. apply (steps_inv (fun st => forall x, cnt (places st) x = cnt (places (init progs)) x)).
+    + intros t st H x. rewrite step_places. apply H.
+    + reflexivity.
+  - rewrite init_places, app_nil_r. reflexivity.
+Qed.
+
+Corollary no_duplication : forall progs sch, NoDup (all_sids progs) -> NoDup (places (steps sch (init progs))).
+Proof.
+  intros progs sch H. eapply Permutation_NoDup; [|exact H]. symmetry. apply conservation.
 Qed.
